@@ -1,5 +1,5 @@
-\* C12, exhaustive, REPAIRED design (LockWrites, StopKA, CloseAtomic; multipart with the proposed repair
-\* MmEncodeInAdd - the code as it is fails NoCrash, see MC_Stream_mmfail.cfg): all invariants + liveness,
+\* C12, exhaustive, the code as it is (sse.go since 625d410: LockWrites, StopKA, CloseAtomic; http_multipart_mixed.go
+\* since a4760cc: MmEncodeInAdd; the design before that fails NoCrash, see MC_Stream_mmfail.cfg): all invariants + liveness,
 \* a payload that cannot be serialized at every position (FailSet; the driver leaves it alone: FailOK bounds it by n).
 \* quick: payload counts 0..3, two ticks; the driver rewrites the two constants for the thorough tier (0..4, four ticks).
 \* measured (round 3, with FailSet): quick 46,786 distinct / 90,880 generated states, depth 44, ~6 s; thorough: see notes/C12.md (4 workers);
@@ -21,6 +21,6 @@ CONSTANTS
   SharedBuf = FALSE
   MmEncodeInAdd = TRUE
 INVARIANTS TypeOK NoRace NoUseAfterFinish NoSplice PreFirst InOrder CompleteLast SseComplete PingsOnlyIfConfigured
-           MmFramed MmOrder MmNoEmpty MmComplete SseFailed MmFailed NoGarbage NoCrash
+           MmFramed MmOrder MmNoEmpty MmComplete SseFailed MmFailed NoGarbage NoCrash MmTickerStoppedAtReturn
 PROPERTIES Termination HelpersStop Finished
 CHECK_DEADLOCK FALSE
